@@ -149,3 +149,41 @@ for ch in (1, 2):
         outside=["real 64 KiB buffers and real thread interleavings of reader and writer (only the sequential order reader-then-writer is explored)",
                  "inputs of more than two buffers (the reader then blocks on a slot; path ends)"])
 proc_ob("copy_terminate", "h_copy_terminate", {"C19": "quick"}, "all values of eof/out_slots/total_out_slots (complete)", ["src/process.c:copy_terminate"], witnesses=["completion_signalled"])
+
+# ------------------------------------------------------------------------------- main.c + signals.c under the symbolic OS
+MAIN_FUNCS = ["src/main.c:main", "src/main.c:opts_setup", "src/main.c:input_init", "src/main.c:output_init", "src/main.c:output_regf_uninit",
+              "src/main.c:input_oprnd_rm", "src/main.c:input_uninit", "src/main.c:suffix_xform", "src/main.c:cleanup", "src/main.c:log_generic + DEF() logging family",
+              "src/signals.c:setup_signals", "src/signals.c:cli", "src/signals.c:sti", "src/signals.c:halt", "src/signals.c:terminate", "src/signals.c:bailout", "src/signals.c:xraise"]
+MAIN_ASM = ["symbolic OS model of h_main.c: per-operand input/output nodes; every system-call execution (lstat/open/fstat/close/unlink/fchown/fchmod/futimens and each stderr write) "
+            "may fail with an arbitrary errno; umask arbitrary; signal masks/actions/pending sets modelled, delivery at kill()/unblock/sigsuspend()",
+            "work() is a contract stub: marks the output partial, may fail in the main thread (read/data/write error through the real failf/failfx), then waits in the REAL halt(); "
+            "SIGINT, SIGTERM and sub-thread failures (plain, EPIPE, EFBIG) arrive there; otherwise SIGUSR2 (success) marks the output complete",
+            "a sub-thread's bailout() is modelled by its effect (pending SIGPIPE/SIGXFSZ promoted, SIGUSR1 raised)",
+            "unlink() of an output file created by this run never fails (every other call may)",
+            "a failed close() of the output is assumed to possibly lose buffered data (content no longer complete)"]
+def main_ob(name, entry, props, args, oper0="a", noper=1, pname="lbzip2", extra=(), to=600, oper1="b", **kw):
+    add(name, "h_main.c", entry, props,
+        defines=["-include", "/verif/harness/osmodel_sig.h", '-DARGS="%s"' % args, '-DOPER0="%s"' % oper0, '-DOPER1="%s"' % oper1,
+                 "-DNOPER=%d" % noper, '-DPNAME="%s"' % pname] + list(extra),
+        extra_src=["signals.c"], cbmc=["--unwind", "42"], object_bits=12, backend="sat", timeout=to, mem_gb=8,
+        functions=MAIN_FUNCS, assumptions=MAIN_ASM,
+        bounds="argv = %s %s %s%s; initial file-system state, umask, inherited signal mask, the outcome of each of up to 40 system-call executions and up to 2 asynchronous events per operand are symbolic"
+               % (pname, args, oper0, (" " + oper1) if noper > 1 else ""), **kw)
+F = {"C16": "quick", "C17": "quick", "C07": "quick"}
+WF = ["exit_success", "exit_failure", "exit_warning", "death_by_signal", "operand_converted", "operand_not_admitted"]
+WFF = ["exit_success", "exit_failure", "exit_warning", "death_by_signal", "operand_converted"]
+WN = ["exit_success", "exit_failure", "exit_warning", "death_by_signal"]
+def eo(n): return ['-DEXPECT_OUT="%s"' % n]
+main_ob("main_compress", "h_main_files", F, "-z", extra=eo("a.bz2"), witnesses=WF)
+main_ob("main_compress_keep", "h_main_files", F, "-zk", oper0="dir/x.tar", extra=eo("dir/x.tar.bz2"), witnesses=WF)
+main_ob("main_compress_force", "h_main_files", F, "-zf", oper0="a.bz", extra=eo("a.bz.bz2"), witnesses=WFF)
+main_ob("main_decompress", "h_main_files", F, "-d", oper0="a.bz2", extra=eo("a"), witnesses=WF)
+main_ob("main_decompress_keep", "h_main_files", F, "-dk", oper0="a.tbz", extra=eo("a.tar"), witnesses=WF)
+main_ob("main_decompress_force", "h_main_files", F, "-df", oper0="a.x", extra=eo("a.x.out"), witnesses=WFF)
+main_ob("main_decompress_tbz2", "h_main_files", {"C17": "quick"}, "-d", oper0="b.tbz2", extra=eo("b.tar"), witnesses=WF)
+main_ob("main_decompress_tz2", "h_main_files", {"C17": "quick"}, "-d", oper0=".tz2", extra=eo(".tar"), witnesses=WF)
+main_ob("main_decompress_bz2only", "h_main_files", {"C17": "quick"}, "-dk", oper0=".bz2", extra=eo(""), witnesses=["exit_failure", "exit_warning"])
+for sfx in ("bz2", "tbz", "tbz2", "tz2"):
+    main_ob("main_compress_skip_" + sfx, "h_main_files", {"C17": "quick"}, "-zf", oper0="q." + sfx, extra=["-DEXPECT_SKIP"], witnesses=["compressed_suffix_skipped", "exit_failure"])
+main_ob("main_test", "h_main_files", {"C17": "quick", "C07": "quick"}, "-t", oper0="a.bz2", witnesses=WN)
+main_ob("main_stdout", "h_main_files", {"C17": "quick", "C07": "quick"}, "-dc", oper0="a.bz2", witnesses=WN)
